@@ -407,6 +407,7 @@ class Extractor:
         self.rewrites = []  # log: dict(rule, site, original, replacement)
         self.fn_texts = {}  # qual -> extracted text (for hashing)
         self.aliases_done = set()
+        self.theorem_canaries = []  # names of spec-level theorems that received a vacuity canary (canary builds only)
 
     def src(self, rel):
         if rel not in self.srcs:
@@ -1137,13 +1138,36 @@ def build_unit(unit, repo, unit_dir, canary=False):
                 out.add(it.text, ('raw', it.label))
             elif isinstance(it, RawFile):
                 p = it.path if os.path.isabs(it.path) else os.path.join(unit_dir, it.path)
-                out.add(open(p).read(), ('rawfile', it.label, p))
+                rtxt = open(p).read()
+                out.add(rtxt, ('rawfile', it.label, p))
+                if canary and os.path.dirname(os.path.abspath(p)) == os.path.abspath(unit_dir):
+                    # vacuity canaries for the unit's own spec-level theorems: same hypotheses and proof, conclusion `false`
+                    for name, ctxt in theorem_canaries(rtxt):
+                        out.add(ctxt, ('generated', 'canary of ' + name))
+                        ex.theorem_canaries.append(name)
             else:
                 raise ExtractError('unknown item %r' % it)
     flush()
     out.add('} // verus!\nfn main() {}', ('prelude', 'footer'))
     text, origins = out.render()
     return text, origins, ex, contracted
+
+
+_THEOREM_RE = re.compile(r'^pub proof fn (theorem_\w+)(.*?)^\{\n(.*?)^\}\n', re.S | re.M)
+
+
+def theorem_canaries(text):
+    """for every `pub proof fn theorem_X(..) requires R ensures E [decreases D] { B }` (body braces in column 0) yield
+    (X, text of `pub proof fn X__canary(..) requires R ensures false { B }`): it must NOT verify, else R is contradictory"""
+    out = []
+    for m in _THEOREM_RE.finditer(text):
+        name, head, body = m.group(1), m.group(2), m.group(3)
+        k = re.search(r'\bensures\b', head)
+        if not k:
+            continue
+        head = head[:k.start()].rstrip() + '\n    ensures false\n'
+        out.append((name, 'pub proof fn %s__canary%s{\n%s}\n' % (name, head, body)))
+    return out
 
 
 def as_contract(f, reason):
